@@ -37,15 +37,15 @@ Definition hist_operand (kind x y : Z) : bool * apt :=
   let '(w', p) := @force_elt FqF ark_D ark_ZETA fq_neg ark_sr w in (fst w', p).
 (* q: coordinates of the second VARIABLE as allocated; qc: affine coordinates of the second operand as a constant *)
 Definition hist_op (q qc : apt) (c : Z) : wop :=
-  if c =? 9 then OAdd qc else if c =? 10 then OSub qc else
+  if c =? 9 then OAdd qc else if c =? 10 then OSub qc else if c =? 11 then OIsEq q else
   if c =? 0 then OForce else if c =? 1 then OReadEnc else if c =? 2 then OReadVal else if c =? 3 then OAdd q
   else if c =? 4 then OSub q else if c =? 5 then ODbl else if c =? 6 then ONeg else if c =? 7 then OSel q else OClone.
 Definition hist_out (r : wout) : list Z :=
-  match r with RdEnc s => 0 :: val s :: nil | RdVal p => 1 :: val (aX p) :: val (aY p) :: nil end.
+  match r with RdEnc s => 0 :: val s :: nil | RdVal p => 1 :: val (aX p) :: val (aY p) :: nil | RdBool b => 2 :: gb b :: nil end.
 Definition run_hist (kind x y bkind bx by_ : Z) (codes : list Z) : list Z :=
   let w := hist_alloc kind x y in
   let '(bsat, q) := hist_operand bkind bx by_ in
-  let uses_b := existsb (fun c => (c =? 3) || (c =? 4) || (c =? 7)) codes in
+  let uses_b := existsb (fun c => (c =? 3) || (c =? 4) || (c =? 7) || (c =? 11)) codes in
   let '(w', rs) := @wrun FqF ark_A ark_D ark_ZETA fq_neg ark_sr w (map (hist_op q (mkapt (fq bx) (fq by_))) codes) in
   gb (fst w' && (bsat || negb uses_b)) :: flat_map hist_out rs.
 
